@@ -226,44 +226,55 @@ Definition remove_player (p : pid) (cl : client) : client * bool :=
     let cl2 := del_player p cl1 in
     if was_active then (set_active_player None cl2, true) else (cl2, false).
 
-(* one message: new state and whether listener.state_updated() was called *)
-Definition step (s : state) (m : msg) : state * bool :=
+(* `await self._state_updated(client, player)` executed when the manager is in state s:
+   the listener, if woken, runs (and may read metadata.playing()) while the manager is in
+   exactly that state *)
+Definition notify (s : state) (cl : option cid) (pl : option pid) : option state :=
+  if state_updated s cl pl then Some s else None.
+
+(* one message: the state after the handler has returned, and - if listener.state_updated()
+   was called - the state the manager was in DURING that call *)
+Definition step_w (s : state) (m : msg) : state * option state :=
   match m with
   | SetState c dn p ps cmds q =>
       let s' := with_client c dn (upd_player p (handle_set_state ps cmds q)) s in
-      (s', state_updated s' None (Some p))
+      (s', notify s' None (Some p))
   | UpdateContentItem c dn p upd =>
       let s' := with_client c dn (upd_player p (handle_content_item_update upd)) s in
-      (s', state_updated s' None (Some p))
+      (s', notify s' None (Some p))
   | SetNowPlayingClient c dn =>
       let s1 := with_client c dn (fun x => x) s in
       let s' := {| s_active := Some c; s_clients := s_clients s1 |} in
-      (s', state_updated s' None None)
+      (s', notify s' None None)
   | SetNowPlayingPlayer c dn p =>
       let s' := with_client c dn
                   (fun cl => set_active_player (Some p) (upd_player p (fun x => x) cl)) s in
-      (s', state_updated s' (Some c) None)
+      (s', notify s' (Some c) None)
   | UpdateClient c dn =>
       let s' := with_client c dn (fun cl => set_dname (name_or dn (cl_dname cl)) cl) s in
-      (s', state_updated s' (Some c) None)
+      (s', notify s' (Some c) None)
   | RemoveClient c =>
       match aget c (s_clients s) with
-      | None => (s, false)
+      | None => (s, None)
       | Some _ =>
           let cls := adel c (s_clients s) in
           if opt_beq N.eqb (s_active s) (Some c)
           then let s' := {| s_active := None; s_clients := cls |} in
-               (s', state_updated s' None None)
-          else ({| s_active := s_active s; s_clients := cls |}, false)
+               (s', notify s' None None)
+          else ({| s_active := s_active s; s_clients := cls |}, None)
       end
   | RemovePlayer c dn p =>
       let r := remove_player p (the_client c dn s) in
       let s' := put_client c (fst r) s in
-      if snd r then (s', state_updated s' (Some c) None) else (s', false)
+      if snd r then (s', notify s' (Some c) None) else (s', None)
   | SetDefaultCommands c dn cmds =>
       let s' := with_client c dn (set_cmds cmds) s in
-      (s', state_updated s' None None)
+      (s', notify s' None None)
   end.
+
+(* new state and whether the listener was woken *)
+Definition step (s : state) (m : msg) : state * bool :=
+  let r := step_w s m in (fst r, match snd r with Some _ => true | None => false end).
 
 Definition run (h : list msg) : state := fold_left (fun s m => fst (step s m)) h init.
 
@@ -410,43 +421,56 @@ Definition flat (o : option (option N * cid) * view) : list (option Z) :=
        identifier is missing or ""; the harness maps that digest to None *)
     match v_hash v with Some 0%N => None | x => zN x end; zN (v_series v); v_season v; v_episode v; zN (v_content v); v_itunes v ].
 
-Fixpoint trace (now : Z) (s : state) (h : list msg) : list (list (option Z) * bool) :=
+(* per message: what is reported after it, and what the listener saw when it was woken *)
+Definition wobs := (list (option Z) * option (list (option Z)))%type.
+Fixpoint trace (now : Z) (s : state) (h : list msg) : list wobs :=
   match h with
   | [] => []
-  | m :: t => let r := step s m in (flat (observe now (fst r)), snd r) :: trace now (fst r) t
+  | m :: t =>
+      let r := step_w s m in
+      (flat (observe now (fst r)),
+       match snd r with Some sw => Some (flat (observe now sw)) | None => None end)
+      :: trace now (fst r) t
   end.
 
-Definition obs_beq (a b : list (option Z) * bool) : bool :=
-  list_beq (opt_beq Z.eqb) (fst a) (fst b) && Bool.eqb (snd a) (snd b).
+Definition flat_beq := list_beq (opt_beq Z.eqb).
+Definition obs_beq (a b : wobs) : bool :=
+  flat_beq (fst a) (fst b) && opt_beq flat_beq (snd a) (snd b).
 
-(* (now, history, observation before any message, (observation, woken?) after each message)
+(* (now, history, observation before any message, per message: (observation after it, the
+   LAST observation made inside listener.state_updated() while it was handled, if woken))
    as seen on the implementation *)
-Definition check_case (c : Z * list msg * list (option Z) * list (list (option Z) * bool)) : bool :=
+Definition check_case (c : Z * list msg * list (option Z) * list wobs) : bool :=
   let '(now, h, o0, tr) := c in
-  list_beq (opt_beq Z.eqb) (flat (observe now init)) o0 && list_beq obs_beq (trace now init h) tr.
+  flat_beq (flat (observe now init)) o0 && list_beq obs_beq (trace now init h) tr.
 
 (* exhaustive enumeration: every sequence of length n over alphabet A (in the order of
-   itertools.product), each preceded by [prefix]; expected = (index into table, woken?) of
-   the LAST message of each sequence.  Returns the indices that disagree. *)
+   itertools.product), each preceded by [prefix]; expected = (index into table of the final
+   observation, index of the observation at wake-up if woken) of the LAST message of each
+   sequence.  Returns the indices that disagree. *)
 Fixpoint seqs (A : list msg) (n : nat) : list (list msg) :=
   match n with
   | O => [[]]
   | S k => flat_map (fun m => map (cons m) (seqs A k)) A
   end.
-Definition final (now : Z) (h : list msg) : list (option Z) * bool :=
-  last (trace now init h) (flat (observe now init), false).
+Definition final (now : Z) (h : list msg) : wobs :=
+  last (trace now init h) (flat (observe now init), None).
 Fixpoint bad_from_N {A} (f : A -> bool) (i : N) (l : list A) : list N :=
   match l with
   | [] => []
   | x :: t => if f x then bad_from_N f (N.succ i) t else i :: bad_from_N f (N.succ i) t
   end.
 Definition check_enum (now : Z) (prefix A : list msg) (n : nat)
-    (table : list (list (option Z))) (expected : list (nat * bool)) : option (list N) :=
+    (table : list (list (option Z))) (expected : list (nat * option nat)) : option (list N) :=
   let hs := seqs A n in
   if Nat.eqb (length hs) (length expected)
   then Some (bad_from_N
                (fun x => obs_beq (final now (prefix ++ fst x))
-                                 (nth (fst (snd x)) table [], snd (snd x)))
+                                 (nth (fst (snd x)) table [],
+                                  match snd (snd x) with
+                                  | Some i => Some (nth i table [])
+                                  | None => None
+                                  end))
                0%N (combine hs expected))
   else None.
 
